@@ -18,6 +18,8 @@ def run(R):
     if not R.build() or not R.build(sanitize=True):
         return
     R.lean(["C12"])
+    import hunted
+    hunted.run(R, "C12")
     quick = R.tier == "quick"
     rng = R.rng
     reqs = ties.t6_requests(rng, quick)
